@@ -89,8 +89,12 @@ func (ci *ChunkInfo) updateNeighborChunkInfo(rootCid, cid boson.Address, overlay
 	}
 	bv, ok := ci.ct.presence[rc][over]
 
-	v := ci.getCidSort(rootCid, cid)
-	bv.Set(v)
+	// only data chunks have a bit: a manifest or intermediate chunk (or a
+	// chunk of another file) must not be recorded as data chunk 0
+	if ci.isDataCid(rootCid, cid) {
+		v := ci.getCidSort(rootCid, cid)
+		bv.Set(v)
+	}
 	bit := BitVector{B: bv.Bytes(), Len: bv.Len()}
 	if overlay.Equal(ci.addr) {
 		go ci.PublishDownloadProgress(rootCid, BitVectorInfo{
